@@ -55,7 +55,7 @@ PROPS = {
 }
 
 ENGINES = {
-    "e1": dict(race=False, real=["visor", "visor/blockdb", "visor/historydb", "visor/dbutil", "bolt v1.3.1", "coin", "cipher (secp256k1, encoder)",
+    "e1": dict(race=False, real=["visor", "visor/blockdb", "visor/historydb", "visor/dbutil", "bolt v1.3.1 (harness/third_party/bolt: child buckets spilled in name order instead of map order, nothing else changed)", "coin", "cipher (secp256k1, encoder)",
                                  "transaction", "params", "util/fee", "util/mathutil"],
                stub=["network and daemon (blocks and transactions are handed to visor methods directly)", "wall clock (synctest fake clock)",
                      "entropy (seeded crypto/rand.Reader and secp256k1 pool)", "fsync (tmpfs, NoSync)"]),
